@@ -74,6 +74,7 @@ type Conn struct {
 	ReadsN   int
 	BytesIn  int64
 	Deadline int // number of deadline expiries
+	onRead   func()
 }
 
 type simAddr string
@@ -292,6 +293,9 @@ func (c *Conn) Read(b []byte) (int, error) {
 			}
 			c.ReadsN++
 			c.BytesIn += int64(n)
+			if c.onRead != nil {
+				c.onRead()
+			}
 			h.wakeWriter()
 			return n, nil
 		}
